@@ -112,6 +112,172 @@ def _chain(e):
   return reps
 
 
+class Payload(object):
+  """the characters of the literal after a chain of .replace calls."""
+
+  def __init__(self, reps=()):
+    self.reps = tuple(reps)
+    self.key = 'payload'
+
+  def __repr__(self):
+    return 'Payload(%r)' % (self.reps,)
+
+
+class Wrapped(object):
+  def __init__(self, prefix, payload, suffix):
+    self.prefix, self.payload, self.suffix = prefix, payload, suffix
+    self.key = 'wrapped'
+
+  def __repr__(self):
+    return 'Wrapped(%r, %r, %r)' % (self.prefix, self.payload, self.suffix)
+
+
+class JsonOf(object):
+  def __init__(self, payload, ensure_ascii):
+    self.payload, self.ensure_ascii = payload, ensure_ascii
+    self.key = 'json'
+
+  def __repr__(self):
+    return 'JsonOf(%r, %r)' % (self.payload, self.ensure_ascii)
+
+
+def strliteral_transformer(repo, dialect_name):
+  """What QL.StrLiteral does to the characters of a literal for one dialect,
+  as data: abstract interpretation of StrLiteral with self.dialect.Name() =
+  dialect_name.  The payload `literal['the_string']` is followed through
+  .replace chains, loops over constant character lists (unrolled), `%` / `+` /
+  f-string wrapping and json.dumps - also when some of it lives in helper
+  functions or in a method of the dialect class (interpreted in place)."""
+  fi = repo.func('expr_translate.QL.StrLiteral')
+  mods = [repo.by_name('expr_translate'), repo.by_name('dialects')]
+
+  def helper(node):
+    if isinstance(node.func, ast.Name):
+      c = [m.funcs[node.func.id] for m in mods
+           if node.func.id in m.funcs and m.funcs[node.func.id].parent is None
+           and m.funcs[node.func.id].cls is None]
+      return c[0] if len(c) == 1 else None
+    if isinstance(node.func, ast.Attribute):
+      c = [f for f in repo.method_index().get(node.func.attr, []) if f.module in mods]
+      return c[0] if len(c) == 1 else None
+    return None
+
+  def call(node, st, interp):
+    t = call_tail(node)
+    if t == 'Name' and 'dialect' in (receiver(node) or ''):
+      return Const(dialect_name)
+    args = [interp.value(a, st) for a in node.args]
+    if t == 'replace' and isinstance(node.func, ast.Attribute) and len(args) == 2:
+      recv = interp.value(node.func.value, st)
+      if isinstance(recv, Payload) and all(isinstance(a, Const) and isinstance(a.v, str) for a in args):
+        return Payload(recv.reps + ((args[0].v, args[1].v),))
+      if isinstance(recv, (Payload, Wrapped, JsonOf)):
+        raise AnalysisError('StrLiteral: replace with non-constant arguments / on wrapped text')
+    if t == 'str' and len(args) == 1 and isinstance(args[0], Payload):
+      return args[0]
+    if t == 'dumps' and args and isinstance(args[0], Payload):
+      ea = kwarg(node, 'ensure_ascii')
+      return JsonOf(args[0], True if ea is None else bool(getattr(ea, 'value', True)))
+    if t in ('replace', 'dumps', 'str', 'Name'):
+      return NotImplemented
+    h = helper(node)
+    if h is not None and h is not fi and any(isinstance(a, (Payload, Wrapped)) for a in args):
+      params = [p_ for p_ in h.params if p_ not in ('self', 'cls')]
+      env = dict(zip(params, args))
+      for k in node.keywords:
+        if k.arg in params:
+          env[k.arg] = interp.value(k.value, st)
+      # defaults
+      a_ = h.node.args
+      names = [x.arg for x in a_.args]
+      for name_, d in zip(names[len(names) - len(a_.defaults):], a_.defaults):
+        if name_ not in env and name_ in params:
+          env[name_] = interp.value(d, st)
+      for p_ in h.params:
+        env.setdefault(p_, Sym(p_))
+      return interp.inline(h.node, env, st, depth_limit=4)
+    return NotImplemented
+
+  def wrap(parts):
+    """parts: list of str / Payload / Wrapped -> Wrapped or None."""
+    prefix, mid, suffix = '', None, ''
+    for x in parts:
+      if isinstance(x, str):
+        if mid is None:
+          prefix += x
+        else:
+          suffix += x
+      elif mid is None and isinstance(x, Payload):
+        mid = x
+      elif mid is None and isinstance(x, Wrapped):
+        prefix, mid, suffix = prefix + x.prefix, x.payload, x.suffix
+      else:
+        return None
+    return Wrapped(prefix, mid, suffix) if mid is not None else None
+
+  def expr(node, st, interp):
+    if isinstance(node, ast.Subscript) and const_str(node.slice) == 'the_string':
+      base = interp.value(node.value, st)
+      if isinstance(base, Sym):
+        return Payload(())
+    if isinstance(node, ast.BinOp) and isinstance(node.op, ast.Mod):
+      l = interp.value(node.left, st)
+      r = interp.value(node.right, st)
+      if isinstance(r, tuple) and len(r) == 1:
+        r = r[0]
+      if isinstance(l, Const) and isinstance(l.v, str) and isinstance(r, (Payload, Wrapped)):
+        if templates.percent_specs(l.v) != [('s', None)]:
+          raise AnalysisError('StrLiteral template %r is not a one-%%s template' % l.v)
+        i = l.v.index('%s')
+        w = wrap([l.v[:i].replace('%%', '%'), r, l.v[i + 2:].replace('%%', '%')])
+        if w is not None:
+          return w
+    if isinstance(node, ast.BinOp) and isinstance(node.op, ast.Add):
+      vals = [interp.value(x, st) for x in _flatten_add(node)]
+      if any(isinstance(v, (Payload, Wrapped)) for v in vals):
+        parts = [v.v if isinstance(v, Const) else v for v in vals]
+        if all(isinstance(x, (str, Payload, Wrapped)) for x in parts):
+          w = wrap(parts)
+          if w is not None:
+            return w
+    if isinstance(node, ast.JoinedStr):
+      parts = []
+      for v in node.values:
+        if isinstance(v, ast.Constant):
+          parts.append(v.value)
+        else:
+          parts.append(interp.value(v.value, st))
+      if any(isinstance(x, (Payload, Wrapped)) for x in parts) and \
+          all(isinstance(x, (str, Payload, Wrapped)) for x in parts):
+        w = wrap(parts)
+        if w is not None:
+          return w
+    return NotImplemented
+
+  env = {p_: Sym(p_) for p_ in fi.params}
+  it = Interp(fi.node, dict(call=call, expr=expr, loop=lambda n, s: 'unroll'), max_paths=500)
+  outs = it.run(State(env=env))
+  rets = [o for o in outs if o.kind == 'return']
+  others = [o for o in outs if o.kind != 'return']
+  if not rets or others:
+    raise AnalysisError('StrLiteral for %s: %d returns, %d other outcomes' % (
+        dialect_name, len(rets), len(others)))
+  vals = {repr(o.value) for o in rets}
+  if len(vals) != 1:
+    raise AnalysisError('StrLiteral for %s has several outcomes: %s' % (dialect_name, sorted(vals)))
+  v = rets[0].value
+  node = rets[0].node
+  if isinstance(v, Payload):
+    v = Wrapped('', v, '')
+  if isinstance(v, Wrapped):
+    return fi, Transformer('replace-chain', v.prefix, v.suffix, v.payload.reps, node)
+  if isinstance(v, JsonOf) and not v.payload.reps:
+    t = Transformer('json', node=node)
+    t.ensure_ascii = v.ensure_ascii
+    return fi, t
+  raise AnalysisError('StrLiteral for %s: unrecognised literal construction %r' % (dialect_name, v))
+
+
 def strliteral_branch(repo, dialect_name):
   """Returned expression of QL.StrLiteral when self.dialect.Name() is
   dialect_name (abstract interpretation: single outcome expected)."""
@@ -161,8 +327,8 @@ def sanitisers(chk, rid):
       raise AnalysisError('%s.Name() is not a string constant' % cls)
     if name not in sqllex.FAMILY:
       raise AnalysisError('no lexical rules for dialect %s' % name)
-    fi, expr = strliteral_branch(repo, name)
-    tr = extract_transformer(expr)
+    fi, tr = strliteral_transformer(repo, name)
+    expr = tr.node
     bad = None
     for s in strings:
       total += 1
